@@ -1348,6 +1348,19 @@ pub fn run(ctx: &Ctx) -> Report {
 //  * floods at 0.5x / 1x / 2x of the configured thresholds: at most half the threshold must not
 //    trip the defence, twice the threshold sent in one burst must end in GOAWAY(ENHANCE_YOUR_CALM or
 //    an RFC code of the abused rule) and close; exactly the threshold is not judged.
+//  * premise: almost every verdict needs the scripted backends to be reachable *in sozu's eyes*.
+//    After every scenario sozu's own counters are read (QueryMetrics: backend.connections.error per
+//    cluster, default 502/503/504 answers on the clusters whose backends never leave the protocol).
+//    If they moved, the scenario is not judged (`triage`: inconclusive with its reason, only hard
+//    evidence such as a panic or an oversized request at a backend still counts) and the next
+//    scenario waits until control requests to both well-behaved clusters are answered 200 again
+//    (`Cell::recover`). A connection error counted against a backend that accepted every connection
+//    and never gave one up unread is a finding of its own
+//    (`h2hostile/back/reachable_backend_counted_as_connection_failure`).
+//  * time: every wall-clock allowance is multiplied by the pace of the machine (`calibrate`: a fixed
+//    plan on as many cells side by side as there are threads, against a reference), a slow machine
+//    runs fewer cells side by side; verdicts shaped by time or availability (`Shape::Timed`) only
+//    count once reproduced twice alone on fresh cells (`confirm_suspects`).
 
 /// part (b): live worker lab
 pub fn run_live(ctx: &Ctx, rep: &mut Report) {
@@ -1359,7 +1372,10 @@ mod live {
         collections::{BTreeMap, BTreeSet, HashMap, HashSet},
         io::{Read, Write},
         net::{SocketAddr, TcpStream},
-        sync::{Arc, Condvar, Mutex},
+        sync::{
+            Arc, Condvar, Mutex,
+            atomic::{AtomicU64, Ordering},
+        },
         time::{Duration, Instant},
     };
 
@@ -1382,17 +1398,43 @@ mod live {
     /// cluster with an h2c backend that never leaves the protocol
     const H2OK_HOST: &str = "h2ok.test";
 
+    // Wall-clock allowances. Every one of them only ever creates a *candidate* (a suspect that is
+    // re-run alone before it counts), never a verdict; all are multiplied by the pace of this
+    // machine, measured on a calibration cell before the cells run side by side (see `calibrate`).
+
+    /// slowdown of this machine against an idle 16-core box, x100 (100..=400)
+    static PACE_X100: AtomicU64 = AtomicU64::new(100);
+
+    fn pace() -> f64 {
+        PACE_X100.load(Ordering::SeqCst) as f64 / 100.0
+    }
+
+    fn paced(d: Duration) -> Duration {
+        d.mul_f64(pace())
+    }
+
     /// a Status command must be answered within this bound (statement: "keeps serving", "never loops
     /// without bound"); a miss is only a suspect until reproduced in isolation
-    const STATUS_BOUND: Duration = Duration::from_millis(2000);
+    fn status_bound() -> Duration {
+        paced(Duration::from_millis(2000))
+    }
     /// how long a late Status answer is waited for before the loop is called wedged
-    const STATUS_GIVE_UP: Duration = Duration::from_secs(12);
+    fn status_give_up() -> Duration {
+        paced(Duration::from_secs(12))
+    }
     /// after GOAWAY / after its error sozu must close the socket within this bound
-    const CLOSE_BOUND: Duration = Duration::from_millis(2500);
+    fn close_bound() -> Duration {
+        paced(Duration::from_millis(2500))
+    }
     /// footprint back to the baseline once the harness closed its side
-    const RELEASE_BOUND: Duration = Duration::from_millis(4000);
-    /// a reaction (GOAWAY / RST_STREAM / PING ack) is waited for this long
-    const REACT_BOUND: Duration = Duration::from_millis(4000);
+    fn release_bound() -> Duration {
+        paced(Duration::from_millis(4000))
+    }
+    /// a reaction (GOAWAY / RST_STREAM / PING ack / an answer) is waited for this long; stays below
+    /// HOLD_MAX at every pace
+    fn react_bound() -> Duration {
+        paced(Duration::from_millis(4000))
+    }
     /// backend: a held request is answered at the latest after this long
     const HOLD_MAX: Duration = Duration::from_secs(20);
 
@@ -2543,6 +2585,11 @@ mod live {
         /// hostile backend behaviours that finished: token -> summary
         hb_done: HashMap<String, Value>,
         sink: Sink,
+        /// ground truth about the scripted backends' side of sozu's connection attempts:
+        /// connection handlers that started (compare with the listeners' accept counts) ...
+        handlers_started: u64,
+        /// ... and connections a backend gave up (handshake wait, age) before it had read anything
+        closed_unread: u64,
     }
 
     pub(super) type Shared = Arc<(Mutex<Back>, Condvar)>;
@@ -2610,6 +2657,8 @@ mod live {
             // the request being received / waiting for its release: (tag, verb, token, body bytes, complete, since)
             let mut cur: Option<(String, String, String, usize, bool, Instant)> = None;
             let born = Instant::now();
+            lock(&sh).handlers_started += 1;
+            let mut read_any = false;
             'conn: loop {
                 if let Some((tag, verb, tok, n, true, since)) = &cur {
                     if verb == "big" {
@@ -2626,11 +2675,17 @@ mod live {
                     }
                 }
                 if born.elapsed() > Duration::from_secs(120) {
+                    if !read_any {
+                        lock(&sh).closed_unread += 1;
+                    }
                     break;
                 }
                 let n = match s.read(&mut buf) {
                     Ok(0) => break,
-                    Ok(n) => n,
+                    Ok(n) => {
+                        read_any = true;
+                        n
+                    }
                     Err(e) if matches!(e.kind(), std::io::ErrorKind::WouldBlock | std::io::ErrorKind::TimedOut | std::io::ErrorKind::Interrupted) => continue,
                     Err(_) => break,
                 };
@@ -2855,10 +2910,10 @@ mod live {
         let sent = p.send_frs(&frs);
         let (fid, ping) = p.ping_frame();
         let _ = sent && p.send_frs(&[ping]);
-        let _ = p.await_fence(fid, REACT_BOUND);
+        let _ = p.await_fence(fid, react_bound());
         // give a queued RST_STREAM the time of one more round trip
         if p.alive() {
-            let _ = p.ping_fence(REACT_BOUND);
+            let _ = p.ping_fence(react_bound());
         }
         let witness = |p: &Peer<TcpStream>, expected: String, observed: String| {
             json!({"part": "b", "side": "h2c backend (sozu is the HTTP/2 client)", "backend_behaviour": kindk, "multiplier_x2": mult_half,
@@ -2975,7 +3030,7 @@ mod live {
                             );
                         }
                         let from = p.o.t_goaway.unwrap_or_else(Instant::now);
-                        match p.await_close(from, CLOSE_BOUND) {
+                        match p.await_close(from, close_bound()) {
                             Some(ms) => {
                                 sink.obs(&format!("{side}.closed_after_goaway"), 1);
                                 sink.max(&format!("{side}.close_after_goaway_ms"), ms);
@@ -2983,7 +3038,7 @@ mod live {
                             None => sink.suspect(
                                 &format!("h2hostile/{side}/not_closed_after_goaway"),
                                 "after GOAWAY for a connection error sozu kept the socket open beyond the bound",
-                                witness(p, format!("socket closed within {CLOSE_BOUND:?} of the GOAWAY"), observed(p)),
+                                witness(p, format!("socket closed within {:?} of the GOAWAY", close_bound()), observed(p)),
                             ),
                         }
                     }
@@ -2997,7 +3052,7 @@ mod live {
                     }
                     None => {
                         // still open: was the frame swallowed?
-                        match p.ping_fence(REACT_BOUND) {
+                        match p.ping_fence(react_bound()) {
                             Fence::Acked => {
                                 sink.obs(&format!("{side}.reaction/ignored"), 1);
                                 sink.violation(
@@ -3034,11 +3089,11 @@ mod live {
                     if codes.contains(&code) {
                         sink.obs(&format!("exempt:{side}.stream_error_escalated_to_goaway"), 1);
                         let from = p.o.t_goaway.unwrap_or_else(Instant::now);
-                        if p.await_close(from, CLOSE_BOUND).is_none() {
+                        if p.await_close(from, close_bound()).is_none() {
                             sink.suspect(
                                 &format!("h2hostile/{side}/not_closed_after_goaway"),
                                 "after GOAWAY sozu kept the socket open beyond the bound",
-                                witness(p, format!("socket closed within {CLOSE_BOUND:?} of the GOAWAY"), observed(p)),
+                                witness(p, format!("socket closed within {:?} of the GOAWAY", close_bound()), observed(p)),
                             );
                         }
                     } else {
@@ -3137,7 +3192,10 @@ mod live {
             c.replenish = Replenish::Manual;
             c.read_timeout = Duration::from_secs(5);
             c.write_timeout = Duration::from_secs(5);
+            lock(&sh).handlers_started += 1;
             if c.handshake_server(&[(h2::SET_MAX_CONCURRENT_STREAMS, 128)]).is_err() {
+                // sozu's preface did not arrive (or sozu closed first): this side gives up
+                lock(&sh).closed_unread += 1;
                 return;
             }
             let mut p = Peer::new(c);
@@ -3339,6 +3397,35 @@ mod live {
         last_trace: Value,
         /// how the last hostile connection ended (names the class of a release failure)
         last_end: &'static str,
+        /// sozu's and the backends' counters at the last premise check
+        health: Health,
+        /// the premise broke: the next scenario waits until the clusters answer again
+        blackout: bool,
+        /// the clusters did not come back: no further scenario on this cell
+        abandoned: bool,
+    }
+
+    /// see `Cell::health_now`
+    #[derive(Clone, Debug, Default)]
+    pub(super) struct Health {
+        conn_errors: BTreeMap<String, i64>,
+        answers_5xx: BTreeMap<String, i64>,
+        accepted: u64,
+        started: u64,
+        closed_unread: u64,
+    }
+
+    /// what happened to the premise "the scripted backends are reachable and sozu uses them" during
+    /// one scenario
+    #[derive(Clone, Debug, Default)]
+    pub(super) struct Premise {
+        /// reasons; empty: the premise held
+        broken: Vec<String>,
+        /// (cluster, connection errors sozu counted)
+        conn_errors: Vec<(String, i64)>,
+        /// connections the scripted backends themselves gave up before reading anything
+        closed_unread: u64,
+        now: Health,
     }
 
     #[derive(Clone, Debug)]
@@ -3428,7 +3515,7 @@ mod live {
                 return Err("sozu refused the cell configuration".into());
             }
             let tid = thread_tid(&w.name);
-            Ok(Cell { idx, w, a, b, sh, backs: vec![b1, b2, b3], probe: None, probe_sid: 1, probe_used: Instant::now(), tid, tags: 0, dead: false, last_trace: Value::Null, last_end: "harness_closed_first" })
+            Ok(Cell { idx, w, a, b, sh, backs: vec![b1, b2, b3], probe: None, probe_sid: 1, probe_used: Instant::now(), tid, tags: 0, dead: false, last_trace: Value::Null, last_end: "harness_closed_first", health: Health::default(), blackout: false, abandoned: false })
         }
 
         fn stop(mut self) -> Vec<crate::common::PanicRec> {
@@ -3464,7 +3551,7 @@ mod live {
                     return;
                 }
             };
-            let first = self.w.wait_final(&id, STATUS_BOUND);
+            let first = self.w.wait_final(&id, status_bound());
             let answered = match first {
                 Ok(r) => r.status == ResponseStatus::Ok as i32,
                 Err(_) => false,
@@ -3479,11 +3566,11 @@ mod live {
                 self.dead = true;
                 return; // the panic check reports it
             }
-            let late = self.w.wait_final(&id, STATUS_GIVE_UP).is_ok();
+            let late = self.w.wait_final(&id, status_give_up()).is_ok();
             let wall = t.elapsed().as_millis() as u64;
             let cpu = self.cpu().saturating_sub(cpu0);
             sink.max("status_latency_ms", wall);
-            let w = with(base, json!({"when": when, "expected": format!("Status answered within {STATUS_BOUND:?}"),
+            let w = with(base, json!({"when": when, "expected": format!("Status answered within {:?}", status_bound()),
                 "observed": format!("answered_late={late} after {wall} ms; worker thread consumed {cpu} ms CPU meanwhile")}));
             if !late {
                 self.dead = true;
@@ -3527,7 +3614,7 @@ mod live {
                 let tok = format!("probe{}-{}", self.idx, sid);
                 let p = self.probe.as_mut().expect("probe");
                 let t = Instant::now();
-                let r = simple_get(p, sid, H1_HOST, &format!("/ok/{tok}"), "probe", STATUS_GIVE_UP);
+                let r = simple_get(p, sid, H1_HOST, &format!("/ok/{tok}"), "probe", status_give_up());
                 let ms = t.elapsed().as_millis() as u64;
                 match r {
                     Ok((200, body)) if body.starts_with(tok.as_bytes()) => {
@@ -3560,7 +3647,7 @@ mod live {
                 match open_client(self.a, H1_HOST, true, IoProgram::fast()) {
                     Ok(mut c) => {
                         let tok = format!("fresh{}-{}", self.idx, self.probe_sid);
-                        match simple_get(&mut c, 1, H1_HOST, &format!("/ok/{tok}"), "probe", STATUS_GIVE_UP) {
+                        match simple_get(&mut c, 1, H1_HOST, &format!("/ok/{tok}"), "probe", status_give_up()) {
                             Ok((200, body)) if body.starts_with(tok.as_bytes()) => sink.obs("fresh_connections_served", 1),
                             other => sink.suspect(
                                 "h2hostile/fresh_connection_not_served",
@@ -3577,6 +3664,105 @@ mod live {
                     ),
                 }
             }
+        }
+
+        /// Premise of every verdict that needs a reachable backend: what sozu itself counted
+        /// (connection errors towards its backends, default 5xx answers on the clusters whose
+        /// backends never leave the protocol) next to the scripted backends' own account.
+        /// None: the metrics query was not answered.
+        fn health_now(&mut self) -> Option<Health> {
+            use sozu_command_lib::proto::command::{QueryMetricsOptions, ResponseContent, filtered_metrics::Inner, response_content::ContentType};
+            let r = self
+                .w
+                .call(
+                    RequestType::QueryMetrics(QueryMetricsOptions { list: false, cluster_ids: vec![], backend_ids: vec![], metric_names: vec![], no_clusters: false, workers: false }),
+                    status_give_up(),
+                )
+                .ok()?;
+            let Some(ResponseContent { content_type: Some(ContentType::WorkerMetrics(m)) }) = r.content else { return None };
+            let mut h = Health::default();
+            let count = |v: &sozu_command_lib::proto::command::FilteredMetrics| match v.inner.as_ref() {
+                Some(Inner::Count(c)) => *c,
+                Some(Inner::Gauge(g)) => *g as i64,
+                _ => 0,
+            };
+            for (c, cm) in &m.clusters {
+                for (k, v) in &cm.cluster {
+                    if k == "backend.connections.error" {
+                        h.conn_errors.insert(c.clone(), count(v));
+                    } else if (c == "h1" || c == "h2ok") && matches!(k.as_str(), "http.status.502" | "http.status.503" | "http.status.504") {
+                        h.answers_5xx.insert(format!("{}_on_{c}", k.trim_start_matches("http.status.")), count(v));
+                    }
+                }
+            }
+            h.accepted = self.backs.iter().map(|b| b.accepted.load(Ordering::SeqCst) as u64).sum();
+            let g = lock(&self.sh);
+            h.started = g.handlers_started;
+            h.closed_unread = g.closed_unread;
+            Some(h)
+        }
+
+        /// what changed since the last look; remembers the new state
+        fn premise(&mut self) -> Premise {
+            let Some(now) = self.health_now() else {
+                return Premise { broken: vec!["metrics_query_not_answered".into()], ..Premise::default() };
+            };
+            let mut p = Premise::default();
+            for (c, n) in &now.conn_errors {
+                let d = n - self.health.conn_errors.get(c).copied().unwrap_or(0);
+                if d > 0 {
+                    p.conn_errors.push((c.clone(), d));
+                    p.broken.push(format!("sozu_counted_backend_connection_error/{c}"));
+                }
+            }
+            for (k, n) in &now.answers_5xx {
+                let d = n - self.health.answers_5xx.get(k).copied().unwrap_or(0);
+                if d > 0 {
+                    p.broken.push(format!("sozu_answered_{k}"));
+                }
+            }
+            p.closed_unread = now.closed_unread - self.health.closed_unread.min(now.closed_unread);
+            p.now = now.clone();
+            self.health = now;
+            p
+        }
+
+        /// after a broken premise: wait until both well-behaved clusters answer 200 again (sozu's
+        /// retry policy keeps a backend it counted as failed out of rotation for 1 s and more)
+        fn recover(&mut self) -> bool {
+            let t = Instant::now();
+            let bound = paced(Duration::from_secs(10));
+            let mut n = 0u32;
+            loop {
+                n += 1;
+                let mut ok = 0;
+                if let Ok(mut c) = open_client(self.a, H1_HOST, true, IoProgram::fast()) {
+                    for (sid, host) in [(1u32, H1_HOST), (3u32, H2OK_HOST)] {
+                        let tok = format!("ctl{}-{n}-{sid}", self.idx);
+                        if matches!(simple_get(&mut c, sid, host, &format!("/ok/{tok}"), "ctl", react_bound()), Ok((200, ref b)) if b.starts_with(tok.as_bytes())) {
+                            ok += 1;
+                        } else {
+                            break;
+                        }
+                    }
+                    let _ = c.send_frs(&[Fr::new(h2::FT_GOAWAY, 0, 0, vec![0; 8])]);
+                }
+                if ok == 2 {
+                    break;
+                }
+                if t.elapsed() > bound || !self.w.is_running() {
+                    return false;
+                }
+                std::thread::sleep(Duration::from_millis(100));
+            }
+            // the probe connection may have been drained by sozu after a default answer: it is
+            // exercised (and opened again if need be) now, so that it belongs to the next baseline
+            let mut scratch = Sink::default();
+            self.probe_check(&mut scratch, "control", false, &Value::Null);
+            // what the control requests themselves were answered with is not news
+            let _ = self.premise();
+            self.blackout = false;
+            true
         }
 
         fn foot(&self) -> Foot {
@@ -3744,7 +3930,7 @@ mod live {
             if self.at_once {
                 return true;
             }
-            self.p.ping_fence(REACT_BOUND) == Fence::Acked
+            self.p.ping_fence(react_bound()) == Fence::Acked
         }
         /// bring a stream into the wanted state; None when that is not possible here
         fn ensure(&mut self, class: &str, rng: &mut Rng, sink: &mut Sink) -> Option<u32> {
@@ -3791,7 +3977,7 @@ mod live {
                     if !self.send_valid(vec![f], sink) {
                         return None;
                     }
-                    let ok = self.p.pump(REACT_BOUND, &mut |o| o.resp.get(&sid).is_some_and(|r| r.ended) || o.goaway.is_some());
+                    let ok = self.p.pump(react_bound(), &mut |o| o.resp.get(&sid).is_some_and(|r| r.ended) || o.goaway.is_some());
                     if !ok || !self.p.alive() || !self.fence() {
                         self.m.set(sid, SS::Unknown);
                         return None;
@@ -4055,7 +4241,7 @@ mod live {
         if seg > 0 && !at_once {
             // segmented writes start once the start-up exchange is over (the start-up with
             // segmented frames is the `segmented` workload)
-            let _ = p.ping_fence(REACT_BOUND);
+            let _ = p.ping_fence(react_bound());
         }
         if !at_once {
             p.c.io_prog = prog;
@@ -4167,10 +4353,10 @@ mod live {
                 cell.status(sink, "during", &wbase);
             }
             if conn_label {
-                let _ = w.p.pump(REACT_BOUND, &mut |o| o.goaway.is_some() || o.closed.is_some());
+                let _ = w.p.pump(react_bound(), &mut |o| o.goaway.is_some() || o.closed.is_some());
             } else if let Some(id) = fid {
                 // also after a failed write: what sozu sent before closing is still to be read
-                let _ = w.p.await_fence(id, if sent { REACT_BOUND } else { Duration::from_millis(500) });
+                let _ = w.p.await_fence(id, if sent { react_bound() } else { Duration::from_millis(500) });
             }
             let witness = |p: &Client, expected: String, observed: String| {
                 with(&wbase, json!({"grid_point": gi, "frame": f.describe(), "frame_hex": hex_capped(&f.wire()), "stream_state": st,
@@ -4185,7 +4371,7 @@ mod live {
                 Label::Stream(_) => {
                     if w.p.alive() && !w.p.o.rst.contains_key(&sid) {
                         // a queued RST_STREAM may come after the PING ack: one more round trip
-                        let _ = w.p.ping_fence(REACT_BOUND);
+                        let _ = w.p.ping_fence(react_bound());
                     }
                     let escalated = w.p.o.goaway.is_some();
                     judge_reaction(&mut w.p, &v, sid, "front", sink, &witness);
@@ -4202,7 +4388,7 @@ mod live {
                         w.m.set(nsid, SS::ClosedEnd);
                         // (the H1 cluster: the check is about this connection, not about the backend
                         // connection the reset stream was using)
-                        match simple_get(&mut w.p, nsid, H1_HOST, &format!("/ok/{tok}"), &tag, REACT_BOUND) {
+                        match simple_get(&mut w.p, nsid, H1_HOST, &format!("/ok/{tok}"), &tag, react_bound()) {
                             Ok((200, b)) if b.starts_with(tok.as_bytes()) => sink.obs("front.followup_after_stream_error_served", 1),
                             other => sink.violation(
                                 &format!("h2hostile/front/reaction/connection_broken_after_stream_error/{}", v.rule),
@@ -4254,7 +4440,7 @@ mod live {
         }
         // end of the sequence: held streams untouched by unjudged frames must still be alive
         if w.p.alive() && w.m.header_block.is_none() && !w.m.sent_goaway {
-            let _ = w.p.ping_fence(REACT_BOUND);
+            let _ = w.p.ping_fence(react_bound());
             let reset: Vec<(u32, String)> = w.m.pinned.iter().filter_map(|s| w.p.o.rst.get(s).map(|c| (*s, code_name(*c)))).collect();
             if !reset.is_empty() && w.p.alive() && !any_unjudged {
                 sink.violation(
@@ -4312,7 +4498,7 @@ mod live {
         };
         sink.obs("connections", 1);
         // the start-up exchange (sozu's own initial WINDOW_UPDATE) is over before the burst starts
-        let fenced = p.ping_fence(REACT_BOUND) == Fence::Acked;
+        let fenced = p.ping_fence(react_bound()) == Fence::Acked;
         if !fenced {
             sink.inconclusive("flood: start-up fence not acknowledged");
             return 0;
@@ -4362,7 +4548,7 @@ mod live {
                 let tok = format!("{tag}-ed");
                 let f = req_frame(&mut p, next, "POST", host, &format!("/hold/{tok}"), &tag, false);
                 toks.push(tok);
-                if !p.send_frs(&[f]) || p.ping_fence(REACT_BOUND) != Fence::Acked {
+                if !p.send_frs(&[f]) || p.ping_fence(react_bound()) != Fence::Acked {
                     sink.inconclusive("flood: setup stream not opened");
                     return 0;
                 }
@@ -4379,7 +4565,7 @@ mod live {
             "glitch" => {
                 // WINDOW_UPDATE on a stream that is closed (a legal race, counted as a glitch)
                 let tok = format!("{tag}-gl");
-                match simple_get(&mut p, next, host, &format!("/ok/{tok}"), &tag, REACT_BOUND) {
+                match simple_get(&mut p, next, host, &format!("/ok/{tok}"), &tag, react_bound()) {
                     Ok((200, _)) => {}
                     other => {
                         sink.inconclusive(&format!("flood: setup request failed: {other:?}"));
@@ -4449,7 +4635,7 @@ mod live {
         // did the defence trip? a request on a new stream tells
         let fsid = next.max(1);
         let ftok = format!("{tag}-after");
-        let follow = if sent { simple_get(&mut p, fsid, host, &format!("/ok/{ftok}"), &tag, REACT_BOUND) } else { Err("write failed".into()) };
+        let follow = if sent { simple_get(&mut p, fsid, host, &format!("/ok/{ftok}"), &tag, react_bound()) } else { Err("write failed".into()) };
         let took = t0.elapsed();
         let tripped = p.o.goaway.is_some() || p.o.closed.is_some();
         let observed = format!(
@@ -4516,12 +4702,12 @@ mod live {
                         );
                     }
                     let from = p.o.t_goaway.unwrap_or_else(Instant::now);
-                    match p.await_close(from, CLOSE_BOUND) {
+                    match p.await_close(from, close_bound()) {
                         Some(ms) => sink.max("front.close_after_goaway_ms", ms),
                         None => sink.suspect(
                             "h2hostile/front/not_closed_after_goaway",
                             "after the flood GOAWAY sozu kept the socket open beyond the bound",
-                            wit(&p, format!("socket closed within {CLOSE_BOUND:?} of the GOAWAY")),
+                            wit(&p, format!("socket closed within {:?} of the GOAWAY", close_bound())),
                         ),
                     }
                 } else {
@@ -4610,13 +4796,13 @@ mod live {
         let cut = if rng.bool() { frs.len() } else { rng.urange(1, frs.len()) };
         let ok = p.send_frs(&frs[..cut]) && (cut == frs.len() || p.send_frs(&frs[cut..]));
         cell.status(sink, "during", &wbase);
-        let mut fenced = ok && p.ping_fence(REACT_BOUND) == Fence::Acked;
+        let mut fenced = ok && p.ping_fence(react_bound()) == Fence::Acked;
         if fenced && !behind.is_empty() {
-            fenced = p.send_frs(&behind) && p.ping_fence(REACT_BOUND) == Fence::Acked;
+            fenced = p.send_frs(&behind) && p.ping_fence(react_bound()) == Fence::Acked;
         }
         sink.obs("front.frames_sent_behind_refused_streams", behind_streams.len() as u64);
         let seen = cell.wait_backend_inflight(&tag, adv as i64, Duration::from_millis(2500));
-        let _ = p.ping_fence(REACT_BOUND);
+        let _ = p.ping_fence(react_bound());
         // a little time for over-committed requests to show up at the backend
         std::thread::sleep(Duration::from_millis(30));
         let max_seen = lock(&cell.sh).max_inflight.get(&tag).copied().unwrap_or(0);
@@ -4771,7 +4957,7 @@ mod live {
         let t0 = Instant::now();
         let sent = p.send_frs(&frs);
         cell.status(sink, "during", &wbase);
-        let _ = sent && p.pump(REACT_BOUND, &mut |o| o.resp.get(&1).is_some_and(|r| r.ended) || o.rst.contains_key(&1) || o.goaway.is_some());
+        let _ = sent && p.pump(react_bound(), &mut |o| o.resp.get(&1).is_some_and(|r| r.ended) || o.rst.contains_key(&1) || o.goaway.is_some());
         sink.max("front.header_workload_reaction_ms", t0.elapsed().as_millis() as u64);
         let outcome = if let Some((_, c)) = p.o.goaway {
             format!("GOAWAY({})", code_name(c))
@@ -4785,7 +4971,7 @@ mod live {
         sink.obs(&format!("front.header_workload_outcome/{kind}/{}", outcome.split('(').next().unwrap_or("").trim()), 1);
         // let a forwarded request reach the backend before looking
         if p.alive() {
-            let _ = p.ping_fence(REACT_BOUND);
+            let _ = p.ping_fence(react_bound());
         }
         std::thread::sleep(Duration::from_millis(40));
         let forwarded = cell.seen_path(&path);
@@ -4843,7 +5029,7 @@ mod live {
             }
         };
         sink.obs("connections", 1);
-        let _ = p.ping_fence(REACT_BOUND);
+        let _ = p.ping_fence(react_bound());
         let tag = cell.tag();
         let tok = format!("{tag}-tr");
         let adv = p.c.peer_settings.max_header_list_size;
@@ -4917,7 +5103,7 @@ mod live {
         let t0 = Instant::now();
         let sent = p.send_frs(&frs);
         cell.status(sink, "during", &wbase);
-        let _ = sent && p.pump(REACT_BOUND, &mut |o| o.resp.get(&1).is_some_and(|r| r.ended) || o.rst.contains_key(&1) || o.goaway.is_some());
+        let _ = sent && p.pump(react_bound(), &mut |o| o.resp.get(&1).is_some_and(|r| r.ended) || o.rst.contains_key(&1) || o.goaway.is_some());
         sink.max("front.trailer_workload_reaction_ms", t0.elapsed().as_millis() as u64);
         sink.max("front.trailer_workload_worker_cpu_ms", cell.cpu().saturating_sub(cpu0));
         let accepted = p.o.resp.get(&1).is_some_and(|r| r.ended && r.status == Some(200) && r.body == format!("{tok}:{}", body.len()).as_bytes());
@@ -5005,7 +5191,7 @@ mod live {
         let wbase = with(base, json!({"listener": if small { "B" } else { "A" }, "host": host,
             "streams_the_client_cancels": victims.iter().map(|v| json!({"stream": v.0, "answer_written": if v.2 { "when released, at the moment of the reset" } else { "when the backend reads sozu's RST_STREAM" }, "answer": v.3})).collect::<Vec<_>>(),
             "other_streams_on_the_same_backend_connection": bystanders.iter().map(|b| b.0).collect::<Vec<_>>()}));
-        if !p.send_frs(&frs) || p.ping_fence(REACT_BOUND) != Fence::Acked {
+        if !p.send_frs(&frs) || p.ping_fence(react_bound()) != Fence::Acked {
             sink.inconclusive("crossing: setup failed");
             return 0;
         }
@@ -5024,16 +5210,16 @@ mod live {
             }
         }
         sink.obs("back.streams_cancelled_with_a_queued_answer", victims.len() as u64);
-        let _ = p.ping_fence(REACT_BOUND);
+        let _ = p.ping_fence(react_bound());
         cell.status(sink, "during", &wbase);
         // the backend polls every 10 ms: let the crossing answers go out and reach sozu
         std::thread::sleep(Duration::from_millis(40));
-        let _ = p.ping_fence(REACT_BOUND);
+        let _ = p.ping_fence(react_bound());
         for (_, tok) in &bystanders {
             release(&cell.sh, tok);
         }
         let want: Vec<u32> = bystanders.iter().map(|b| b.0).collect();
-        let _ = p.pump(REACT_BOUND, &mut |o| o.goaway.is_some() || want.iter().all(|s| o.resp.get(s).is_some_and(|r| r.ended) || o.rst.contains_key(s)));
+        let _ = p.pump(react_bound(), &mut |o| o.goaway.is_some() || want.iter().all(|s| o.resp.get(s).is_some_and(|r| r.ended) || o.rst.contains_key(s)));
         let mut bad = Vec::new();
         for (bsid, tok) in &bystanders {
             match p.o.resp.get(bsid) {
@@ -5099,7 +5285,7 @@ mod live {
             if !p.send_frs(&frs) {
                 break;
             }
-            if rng.bool() && p.ping_fence(REACT_BOUND) != Fence::Acked {
+            if rng.bool() && p.ping_fence(react_bound()) != Fence::Acked {
                 break;
             }
             // reset a pattern (keeping the total of resets under half the RST thresholds)
@@ -5142,7 +5328,7 @@ mod live {
                 } else {
                     release(&cell.sh, &tok);
                 }
-                let _ = p.pump(REACT_BOUND, &mut |o| o.resp.get(&sid).is_some_and(|r| r.ended) || o.rst.contains_key(&sid) || o.goaway.is_some());
+                let _ = p.pump(react_bound(), &mut |o| o.resp.get(&sid).is_some_and(|r| r.ended) || o.rst.contains_key(&sid) || o.goaway.is_some());
                 let want = if post { format!("{tok}:{}", body.len()) } else { format!("{tok}:0") };
                 match p.o.resp.get(&sid) {
                     Some(r) if r.ended && r.status == Some(200) && r.body == want.as_bytes() => finished += 1,
@@ -5289,7 +5475,7 @@ mod live {
             let t0 = Instant::now();
             let _ = p.send_bytes(format!("{kind}: {} bytes", bytes.len()), &bytes);
             cell.status(sink, "during", &wbase);
-            match p.await_close(t0, CLOSE_BOUND) {
+            match p.await_close(t0, close_bound()) {
                 Some(ms) => {
                     sink.obs("front.invalid_preface_connection_closed", 1);
                     sink.max("front.invalid_preface_close_ms", ms);
@@ -5300,7 +5486,7 @@ mod live {
                 None => sink.suspect(
                     &format!("h2hostile/front/invalid_preface_not_closed/{kind}"),
                     "an invalid connection preface / first frame (RFC 9113 §3.4: connection error) left the connection open beyond the bound",
-                    with(&wbase, json!({"expected": format!("connection closed within {CLOSE_BOUND:?}"), "observed": format!("still open; goaway={:?}", p.o.goaway), "trace": p.trace()})),
+                    with(&wbase, json!({"expected": format!("connection closed within {:?}", close_bound()), "observed": format!("still open; goaway={:?}", p.o.goaway), "trace": p.trace()})),
                 ),
             }
         } else {
@@ -5311,9 +5497,9 @@ mod live {
             all.extend(&settings);
             let ok = p.send_bytes("valid preface + SETTINGS, segmented".into(), &all);
             p.c.io_prog = IoProgram::fast();
-            let got = ok && p.pump(REACT_BOUND, &mut |o| o.settings_frames >= 1);
+            let got = ok && p.pump(react_bound(), &mut |o| o.settings_frames >= 1);
             let tok = format!("{tag}-pre");
-            match (got, simple_get(&mut p, 1, H1_HOST, &format!("/ok/{tok}"), &tag, REACT_BOUND)) {
+            match (got, simple_get(&mut p, 1, H1_HOST, &format!("/ok/{tok}"), &tag, react_bound())) {
                 (true, Ok((200, b))) if b.starts_with(tok.as_bytes()) => sink.obs("front.segmented_valid_preface_served", 1),
                 (_, other) => sink.violation(
                     "h2hostile/front/valid_segmented_preface_not_served",
@@ -5366,14 +5552,23 @@ mod live {
             sink.inconclusive("backend: request not written");
             return 0;
         }
-        // wait for the backend thread to finish its judgement
-        let deadline = Instant::now() + Duration::from_secs(12);
+        // wait for the backend thread to finish its judgement; once the client has its answer (or
+        // the connection is over) without the backend having been reached, it never will be
+        let deadline = Instant::now() + paced(Duration::from_secs(12));
         let mut done = None;
+        let mut answered_at: Option<Instant> = None;
         while Instant::now() < deadline {
             let _ = p.pump(Duration::from_millis(20), &mut |_| false);
             if let Some(v) = lock(&cell.sh).hb_done.remove(&tok) {
                 done = Some(v);
                 break;
+            }
+            let over = p.o.resp.get(&sid).is_some_and(|r| r.ended) || p.o.rst.contains_key(&sid) || p.o.goaway.is_some() || p.o.closed.is_some();
+            if over && lock(&cell.sh).seen.iter().all(|s| !s.1.ends_with(&tok)) {
+                let since = *answered_at.get_or_insert_with(Instant::now);
+                if since.elapsed() > paced(Duration::from_millis(500)) {
+                    break;
+                }
             }
         }
         cell.status(sink, "during", &wbase);
@@ -5382,7 +5577,16 @@ mod live {
                 sink.obs("back.behaviours_completed", 1);
                 sink.sample(json!({"hostile_backend": v}));
             }
-            None => sink.inconclusive("backend: the hostile behaviour was never reached"),
+            None => {
+                let got = if let Some(r) = p.o.resp.get(&sid) {
+                    format!("the client was answered {}", r.status.unwrap_or(0))
+                } else if p.o.rst.contains_key(&sid) || p.o.goaway.is_some() || p.o.closed.is_some() {
+                    "the client's stream or connection was ended".to_owned()
+                } else {
+                    "the client got nothing".to_owned()
+                };
+                sink.inconclusive(&format!("backend: the hostile behaviour was never reached ({got})"));
+            }
         }
         // what the client got for the stream
         let _ = p.pump(Duration::from_millis(800), &mut |o| o.resp.get(&sid).is_some_and(|r| r.ended) || o.rst.contains_key(&sid) || o.goaway.is_some());
@@ -5407,7 +5611,7 @@ mod live {
         if p.alive() {
             let nsid = sid + 2;
             let t3 = format!("{tag}-after");
-            match simple_get(&mut p, nsid, H1_HOST, &format!("/ok/{t3}"), &tag, REACT_BOUND) {
+            match simple_get(&mut p, nsid, H1_HOST, &format!("/ok/{t3}"), &tag, react_bound()) {
                 Ok((200, b)) if b.starts_with(t3.as_bytes()) => sink.obs("back.client_connection_survived", 1),
                 other => sink.obs(&format!("back.client_connection_after/{}", match other { Ok((s, _)) => format!("http_{s}"), Err(e) => e.split('(').next().unwrap_or("").to_owned() }), 1),
             }
@@ -5511,7 +5715,7 @@ mod live {
             let _ = p.pump(Duration::from_millis(5), &mut |_| false);
         }
         let want: Vec<u32> = posts.iter().map(|x| x.0).collect();
-        let _ = p.pump(REACT_BOUND, &mut |o| o.goaway.is_some() || want.iter().all(|s| o.resp.get(s).is_some_and(|r| r.ended) || o.rst.contains_key(s)));
+        let _ = p.pump(react_bound(), &mut |o| o.goaway.is_some() || want.iter().all(|s| o.resp.get(s).is_some_and(|r| r.ended) || o.rst.contains_key(s)));
         sink.obs("front.segmented_connections", 1);
         let mut bad = Vec::new();
         for (s, tok, n) in &posts {
@@ -5567,7 +5771,7 @@ mod live {
         let wait_for = rng.urange(0, n as usize / 2);
         let rst = rng.bool();
         let _wbase = with(base, json!({"listener": if small { "B" } else { "A" }, "host": host, "streams": n, "answers_awaited_before_disappearing": wait_for, "abortive_close": rst}));
-        if !p.send_frs(&frs) || p.ping_fence(REACT_BOUND) != Fence::Acked {
+        if !p.send_frs(&frs) || p.ping_fence(react_bound()) != Fence::Acked {
             sink.inconclusive("vanish: setup failed");
             return 0;
         }
@@ -5604,7 +5808,7 @@ mod live {
             }
         };
         sink.obs("connections", 1);
-        let _ = p.ping_fence(REACT_BOUND);
+        let _ = p.ping_fence(react_bound());
         let tag = cell.tag();
         let others = rng.urange(0, 4) as u32;
         let mut frs = Vec::new();
@@ -5634,14 +5838,14 @@ mod live {
         p.c.auto_pong = false;
         ok = ok && p.send_bytes(format!("first part of DATA(stream={csid} len={total}): header + {first} octets"), &whole[..9 + first]);
         // sozu ends the stream: the early answer
-        let _ = ok && p.pump(REACT_BOUND, &mut |o| o.resp.get(&csid).is_some_and(|r| r.ended) || o.rst.contains_key(&csid) || o.goaway.is_some());
+        let _ = ok && p.pump(react_bound(), &mut |o| o.resp.get(&csid).is_some_and(|r| r.ended) || o.rst.contains_key(&csid) || o.goaway.is_some());
         sink.obs(if p.o.resp.get(&csid).is_some_and(|r| r.ended) { "front.early_response_seen" } else { "front.early_response_not_seen" }, 1);
         // the other streams complete, a new one recycles a slot (and shrinks the slot vector)
         for t in &toks {
             release(&cell.sh, t);
         }
         let want = held.clone();
-        let _ = p.pump(REACT_BOUND, &mut |o| o.goaway.is_some() || want.iter().all(|s| o.resp.get(s).is_some_and(|r| r.ended) || o.rst.contains_key(s)));
+        let _ = p.pump(react_bound(), &mut |o| o.goaway.is_some() || want.iter().all(|s| o.resp.get(s).is_some_and(|r| r.ended) || o.rst.contains_key(s)));
         cell.status(sink, "during", &wbase);
         // the rest of the frame (a frame is atomic on the wire: this client has written nothing,
         // not even an automatic acknowledgement, since the first part)
@@ -5649,18 +5853,18 @@ mod live {
         let sent = p.send_bytes(format!("second part of DATA(stream={csid}): {} octets", total - first), &whole[9 + first..]);
         p.c.auto_ack = true;
         p.c.auto_pong = true;
-        let fence = if sent { p.ping_fence(REACT_BOUND) } else { Fence::Dead };
+        let fence = if sent { p.ping_fence(react_bound()) } else { Fence::Dead };
         // a new stream recycles a slot (and shrinks the slot vector)
         if fence == Fence::Acked && rng.chance(3, 4) {
             let tok = format!("{tag}-new");
-            match simple_get(&mut p, sid, host, &format!("/ok/{tok}"), &tag, REACT_BOUND) {
+            match simple_get(&mut p, sid, host, &format!("/ok/{tok}"), &tag, react_bound()) {
                 Ok((200, _)) => sink.obs("front.early_new_stream_served", 1),
                 _ => sink.obs("front.early_new_stream_not_served", 1),
             }
             sid += 2;
         }
         let ftok = format!("{tag}-after");
-        let follow = if fence == Fence::Acked { simple_get(&mut p, sid, host, &format!("/ok/{ftok}"), &tag, REACT_BOUND) } else { Err("connection ended".into()) };
+        let follow = if fence == Fence::Acked { simple_get(&mut p, sid, host, &format!("/ok/{ftok}"), &tag, react_bound()) } else { Err("connection ended".into()) };
         sink.obs("front.early_scenarios", 1);
         match (&follow, alive_before) {
             (Ok((200, b)), _) if b.starts_with(ftok.as_bytes()) => sink.obs("front.early_split_frame_tolerated", 1),
@@ -5707,7 +5911,7 @@ mod live {
         let blocked0 = cell.w.probe.counter("io.rustls.write.wouldblock") + cell.w.probe.counter("io.rustls.write.partial");
         // flow control out of the way: 1 MiB stream windows, 1 MiB more on the connection
         let ok = p.c.send_frames(&[Frame::settings(&[(h2::SET_INITIAL_WINDOW_SIZE, 1 << 20)]), Frame::window_update(0, 1 << 20)]).is_ok();
-        if !ok || p.ping_fence(REACT_BOUND) != Fence::Acked {
+        if !ok || p.ping_fence(react_bound()) != Fence::Acked {
             sink.inconclusive("pressure: setup failed");
             return 0;
         }
@@ -5824,7 +6028,7 @@ mod live {
         let t2 = format!("{tag}-d3");
         let f1 = req_frame(&mut p, 1, "POST", host, &format!("/echo/{t1}"), &tag, false);
         let f2 = req_frame(&mut p, 3, "GET", host, &format!("/hold/{t2}"), &tag, true);
-        if !p.send_frs(&[f1, f2]) || p.ping_fence(REACT_BOUND) != Fence::Acked {
+        if !p.send_frs(&[f1, f2]) || p.ping_fence(react_bound()) != Fence::Acked {
             sink.inconclusive("drain: setup failed");
             return 0;
         }
@@ -5833,7 +6037,7 @@ mod live {
             sink.inconclusive("drain: soft stop not sent");
             return 0;
         }
-        let got = p.pump(REACT_BOUND, &mut |o| o.goaway.is_some());
+        let got = p.pump(react_bound(), &mut |o| o.goaway.is_some());
         let wbase = with(base, json!({"state": "draining after sozu's GOAWAY (soft stop) with one open and one half-closed stream"}));
         if !got {
             sink.obs("front.drain_no_goaway_seen", 1);
@@ -5864,7 +6068,7 @@ mod live {
         drop(p);
         // the worker must stop within the graceful deadline (2 s) plus slack, without panicking
         let t0 = Instant::now();
-        let joined = cell.w.join(Duration::from_secs(10));
+        let joined = cell.w.join(paced(Duration::from_secs(10)));
         cell.dead = true;
         sink.max("front.drain_worker_exit_ms", t0.elapsed().as_millis() as u64);
         if joined {
@@ -5924,7 +6128,7 @@ mod live {
         if cell.dead {
             return fp;
         }
-        match cell.await_release(&foot0, RELEASE_BOUND) {
+        match cell.await_release(&foot0, release_bound()) {
             Ok(ms) => {
                 sink.obs("release_checks_back_to_baseline", 1);
                 sink.max("release_ms", ms);
@@ -5938,7 +6142,7 @@ mod live {
                 sink.suspect(
                     &format!("h2hostile/connection_not_released/{}", cell.last_end),
                     "after the hostile connection ended and the harness closed its sockets the worker's footprint stayed above the baseline",
-                    with(&base, json!({"expected": format!("{foot0:?} within {RELEASE_BOUND:?}"), "observed": format!("{f:?}"), "last_hostile_connection": cell.last_trace.clone()})),
+                    with(&base, json!({"expected": format!("{foot0:?} within {:?}", release_bound()), "observed": format!("{f:?}"), "last_hostile_connection": cell.last_trace.clone()})),
                 );
             }
         }
@@ -5950,14 +6154,141 @@ mod live {
     /// bounded-time misses of the parallel phase: (scenario, signature, what, witness)
     static SUSPECTS: Mutex<Vec<(Spec, String, String, Value)>> = Mutex::new(Vec::new());
 
+    /// How a verdict was reached decides what it takes to count:
+    /// * `Hard`: positive evidence that no environment can produce (a panic, a request above the
+    ///   limits seen by a backend, octets of another stream): counts at once, whatever else happened.
+    /// * `Positive`: sozu *did* something observable that the rules forbid (a GOAWAY with a code
+    ///   outside the allowed set, an error for a valid frame): counts at once if the premise of the
+    ///   scenario held.
+    /// * `Timed`: something did *not* happen within an allowance, or a valid request was not
+    ///   answered 200: time- and availability-shaped, a candidate until reproduced alone.
+    #[derive(Clone, Copy, PartialEq, Eq, Debug)]
+    enum Shape {
+        Hard,
+        Positive,
+        Timed,
+    }
+
+    fn shape(sig: &str) -> Shape {
+        const HARD: [&str; 6] = ["/panic@", "worker_thread_ended", "/overcommit/", "response_of_another_stream", "response_octets_of_another_stream", "reachable_backend_counted_as_connection_failure"];
+        const TIMED: [&str; 15] = [
+            "not_served",
+            "not_stopped",
+            "not_closed",
+            "not_signalled",
+            "not_raised",
+            "not_released",
+            "connection_broken",
+            "traffic_rejected",
+            "breaks_connection",
+            "connection_ended",
+            "live_stream_",
+            "kills_",
+            "connection_killed",
+            "held_stream_reset",
+            "event_loop_wedged",
+        ];
+        if HARD.iter().any(|h| sig.contains(h)) {
+            Shape::Hard
+        } else if TIMED.iter().any(|t| sig.contains(t)) {
+            Shape::Timed
+        } else {
+            Shape::Positive
+        }
+    }
+
+    /// Premise check and triage of one scenario's verdicts (see `Shape`). Returns false when the
+    /// premise did not hold: nothing but `Hard` verdicts of this scenario is judged then.
+    fn triage(cell: &mut Cell, spec: &Spec, sink: &mut Sink) -> bool {
+        if cell.dead || !cell.w.is_running() {
+            // nobody to ask; what the scenario found (a panic, a wedge candidate) stands
+            let viol = std::mem::take(&mut sink.viol);
+            for v in viol {
+                if shape(&v.0) == Shape::Timed {
+                    sink.suspects.push(v);
+                } else {
+                    sink.viol.push(v);
+                }
+            }
+            return true;
+        }
+        let mut pr = cell.premise();
+        if !pr.conn_errors.is_empty() {
+            // sozu says a connection attempt to a backend failed. The scripted backends listen for
+            // the whole life of the cell (backlog 1024, accept loop never blocked) and know whether
+            // they ever gave a connection up before reading from it.
+            let t = Instant::now();
+            while pr.now.started < pr.now.accepted && t.elapsed() < paced(Duration::from_secs(2)) {
+                std::thread::sleep(Duration::from_millis(10));
+                pr.now.accepted = cell.backs.iter().map(|b| b.accepted.load(Ordering::SeqCst) as u64).sum();
+                pr.now.started = lock(&cell.sh).handlers_started;
+            }
+            let truth = json!({"sozu_metric_backend.connections.error_grew_by": pr.conn_errors.iter().map(|(c, n)| json!({"cluster": c, "by": n})).collect::<Vec<_>>(),
+                "backend_connections_accepted": pr.now.accepted, "backend_connection_handlers_started": pr.now.started,
+                "connections_given_up_unread_by_the_backends_during_this_scenario": pr.closed_unread});
+            if pr.now.started == pr.now.accepted && pr.closed_unread == 0 {
+                sink.obs("premise.connection_errors_counted_for_reachable_backends", 1);
+                sink.violation(
+                    "h2hostile/back/reachable_backend_counted_as_connection_failure",
+                    "sozu counted a failed connection attempt against a backend (backend.connections.error; the retry policy then keeps the backend out of rotation: every request to the cluster is answered 503 for a second or more) although the backend was listening, accepted every connection and never closed one before reading from it",
+                    with(&spec.json(), json!({"expected": "no connection error counted for a backend that accepts every connection", "observed": truth, "clusters_answering_5xx": pr.broken, "last_hostile_connection": cell.last_trace.clone()})),
+                );
+            } else {
+                sink.obs("premise.connection_errors_not_attributable", 1);
+            }
+        }
+        if pr.broken.is_empty() {
+            sink.obs("premise.held", 1);
+            // what is time- or availability-shaped is a candidate, not a verdict
+            let viol = std::mem::take(&mut sink.viol);
+            for v in viol {
+                if shape(&v.0) == Shape::Timed {
+                    sink.obs("premise.timed_verdicts_sent_to_isolation", 1);
+                    sink.suspects.push(v);
+                } else {
+                    sink.viol.push(v);
+                }
+            }
+            return true;
+        }
+        cell.blackout = true;
+        let mut dropped = 0u64;
+        let viol = std::mem::take(&mut sink.viol);
+        for v in viol {
+            if shape(&v.0) == Shape::Hard {
+                sink.viol.push(v);
+            } else {
+                dropped += 1;
+            }
+        }
+        dropped += sink.suspects.len() as u64;
+        sink.suspects.clear();
+        pr.broken.sort();
+        pr.broken.dedup();
+        for r in &pr.broken {
+            sink.obs(&format!("premise.broken/{r}"), 1);
+        }
+        sink.obs("premise.broken_scenarios", 1);
+        sink.obs("premise.verdicts_not_judged", dropped);
+        sink.inconclusive(&format!("premise broken, scenario not judged: {}", pr.broken.join("+")));
+        false
+    }
+
     /// one scenario; bounded-time misses are parked: they only count once reproduced in isolation
     /// (see `confirm_suspects`)
     fn run_scenario(cell: &mut Cell, spec: &Spec, rep: &mut Report) {
+        if cell.blackout && !cell.recover() {
+            cell.abandoned = true;
+            rep.obs("b.premise.cells_abandoned", 1);
+            rep.inconclusive("premise broken, cell abandoned: the well-behaved clusters did not answer 200 again");
+            return;
+        }
         let mut sink = Sink::default();
         let fp = run_family(cell, spec, &mut sink);
         // judgements made by backend threads
         let from_backends = std::mem::take(&mut lock(&cell.sh).sink);
         sink.absorb(from_backends);
+        triage(cell, spec, &mut sink);
         rep.case(fp ^ crate::common::rng::fnv1a(spec.family.as_bytes()), fp != 0);
         if fp != 0 {
             rep.sample(json!({"live_scenario": spec.json(), "hostile_connection_ended": cell.last_end,
@@ -6006,11 +6337,25 @@ mod live {
                 let mut s2 = Sink::default();
                 iso.probe_check(&mut s2, "before", false, &spec2.json());
                 s2.suspects.clear();
+                if !iso.recover() {
+                    rep.obs("b.isolated_reruns_void_premise_broken", 1);
+                    iso.stop();
+                    continue;
+                }
                 let _ = run_family(&mut iso, &spec2, &mut s2);
                 let from_backends = std::mem::take(&mut lock(&iso.sh).sink);
                 s2.absorb(from_backends);
-                let again = s2.suspects.iter().any(|s| &s.0 == sig);
+                // the same rules as side by side: a re-run whose premise broke shows nothing
+                let held = triage(&mut iso, &spec2, &mut s2);
+                let again = held && s2.suspects.iter().any(|s| &s.0 == sig);
                 rep.obs("b.isolated_reruns", 1);
+                if !held {
+                    rep.obs("b.isolated_reruns_void_premise_broken", 1);
+                }
+                // a hard verdict is one wherever it shows
+                for (s, w, v) in s2.viol.drain(..).filter(|v| shape(&v.0) == Shape::Hard) {
+                    rep.violation(&s, &w, v);
+                }
                 for p in iso.stop() {
                     if p.in_sozu() {
                         rep.violation(
@@ -6040,6 +6385,74 @@ mod live {
         }
     }
 
+    /// about what the calibration plan takes on a 16-core machine with little else to do (16 cells
+    /// side by side; 560 ms were measured at load average 12)
+    const CALIBRATION_REFERENCE_MS: u64 = 500;
+
+    /// Pace: how slow is this machine right now? A fixed plan (worker start, cell configuration,
+    /// warm-up, six scenarios of six workloads) runs on as many cells side by side as the run will
+    /// use threads (a machine whose processors are taken by others slows cells that run side by
+    /// side far more than one that runs alone); the median counts. Its slowdown against the
+    /// reference multiplies every wall-clock allowance and decides how many cells run side by side.
+    /// Returns (ms, pace).
+    fn calibrate(ctx: &Ctx) -> (u64, f64) {
+        fn plan(round: u64) -> Option<u64> {
+            let t = Instant::now();
+            let mut cell = Cell::start(2_000_000 + round).ok()?;
+            let mut ok = cell.recover();
+            for (j, family) in ["walk", "flood", "recycle", "hdr", "crossing", "mcs"].into_iter().enumerate() {
+                if !ok || cell.dead {
+                    ok = false;
+                    break;
+                }
+                let spec = Spec { seed: 0xCA11B, cell: 2_000_000, j: j as u64, family, isolated: true };
+                let mut scratch = Sink::default();
+                let _ = run_family(&mut cell, &spec, &mut scratch);
+            }
+            let _ = cell.stop();
+            ok.then(|| t.elapsed().as_millis() as u64)
+        }
+        let n = ctx.threads.max(1) as u64;
+        let mut times: Vec<u64> = std::thread::scope(|s| {
+            let hs: Vec<_> = (0..n).map(|i| std::thread::Builder::new().name(format!("vh-c15-calibration-{i}")).spawn_scoped(s, move || plan(i))).collect();
+            hs.into_iter().filter_map(|h| h.ok().and_then(|h| h.join().ok()).flatten()).collect()
+        });
+        times.sort();
+        // not even the calibration plan completed: the slowest pace
+        let median = times.get(times.len() / 2).copied().unwrap_or(CALIBRATION_REFERENCE_MS * 4);
+        let pace_x100 = (median * 100 / CALIBRATION_REFERENCE_MS).clamp(100, 400);
+        PACE_X100.store(ctx.opt_u64("pace_x100", pace_x100).clamp(100, 400), Ordering::SeqCst);
+        (median, pace())
+    }
+
+    /// cells running side by side (fewer than threads on a slow machine)
+    static SLOTS: (Mutex<usize>, Condvar) = (Mutex::new(0), Condvar::new());
+
+    struct Slot;
+
+    impl Slot {
+        fn take(ctx: &Ctx) -> Option<Slot> {
+            let mut g = SLOTS.0.lock().unwrap_or_else(|e| e.into_inner());
+            loop {
+                if *g > 0 {
+                    *g -= 1;
+                    return Some(Slot);
+                }
+                if ctx.out_of_time() {
+                    return None;
+                }
+                g = SLOTS.1.wait_timeout(g, Duration::from_millis(200)).unwrap_or_else(|e| e.into_inner()).0;
+            }
+        }
+    }
+
+    impl Drop for Slot {
+        fn drop(&mut self) {
+            *SLOTS.0.lock().unwrap_or_else(|e| e.into_inner()) += 1;
+            SLOTS.1.notify_one();
+        }
+    }
+
     fn run_cell(ctx: &Ctx, seed: u64, idx: u64, per_cell: u64, only: Option<&str>, rep: &mut Report) {
         let mut cell = match Cell::start(idx) {
             Ok(c) => c,
@@ -6060,13 +6473,19 @@ mod live {
             cell.stop();
             return;
         }
+        // both well-behaved clusters answer; sozu's counters so far are the baseline of the premise
+        if !cell.recover() {
+            rep.inconclusive("cell did not serve the control requests before any hostile traffic");
+            cell.stop();
+            return;
+        }
         let drain_last = idx % 4 == 0 && ctx.opt("b_j").is_none();
         let only_j = ctx.opt("b_j").and_then(|s| s.parse::<u64>().ok());
         for j in 0..(if only == Some("drain") { 0 } else { per_cell }) {
             if only_j.is_some_and(|x| x != j) {
                 continue;
             }
-            if cell.dead || (ctx.out_of_time() && ctx.replay.is_none()) {
+            if cell.dead || cell.abandoned || (ctx.out_of_time() && ctx.replay.is_none()) {
                 break;
             }
             let family = match only {
@@ -6082,7 +6501,7 @@ mod live {
             let spec = Spec { seed, cell: idx, j, family, isolated: false };
             run_scenario(&mut cell, &spec, rep);
         }
-        if !cell.dead && (drain_last || only == Some("drain")) && !(ctx.out_of_time() && ctx.replay.is_none()) {
+        if !cell.dead && !cell.abandoned && (drain_last || only == Some("drain")) && !(ctx.out_of_time() && ctx.replay.is_none()) {
             let spec = Spec { seed, cell: idx, j: per_cell, family: "drain", isolated: false };
             run_scenario(&mut cell, &spec, rep);
         }
@@ -6124,6 +6543,13 @@ mod live {
         rep.assume("live lab: floods: total frames of a kind <= threshold/2 must not trip, >= 2x threshold in one burst must end in GOAWAY(ENHANCE_YOUR_CALM or an RFC code of the abused rule)/close, exactly the threshold is not judged (the documentation says 'exceeded')");
         rep.assume("live lab: bounded-time oracles (Status within 2 s, socket closed within 2.5 s of GOAWAY, footprint back within 4 s, probe served) only count after being reproduced twice in isolation on fresh cells; a late Status answer with an idle worker thread (CPU accounting from /proc) is machine starvation, not a wedge");
         rep.assume("live lab: malformed-request semantics (pseudo-header rules, content-length) are left to C03; sozu's per-stream idle reaper, SETTINGS ACK timeout and lifetime PING/SETTINGS/RST caps (10 000) are not reached by these workloads");
+        rep.assume("live lab: a verdict that needs a reachable backend checks that premise: sozu's own counters (backend.connections.error, default 502/503/504 answers on the clusters whose scripted backends never leave the protocol) are read after every scenario; a scenario during which they moved is not judged (inconclusive, counted with its reason), the next one starts once control requests to both well-behaved clusters are answered 200 again. A connection error counted against a backend that accepted every connection is reported under its own signature");
+        rep.assume("live lab: wall-clock allowances are multiplied by the slowdown of a calibration plan run alone at the start (pace 1..4), fewer cells run side by side on a slow machine; verdicts shaped by time or availability (something not answered / not closed / not stopped within an allowance) only count once reproduced twice alone on fresh cells");
+        let (calibration_ms, pace_now) = calibrate(ctx);
+        let slots = if pace_now > 3.0 { ctx.threads / 2 } else if pace_now > 1.75 { ctx.threads * 2 / 3 } else { ctx.threads }.clamp(2.min(ctx.threads.max(1)), ctx.threads.max(1));
+        *SLOTS.0.lock().unwrap_or_else(|e| e.into_inner()) = ctx.opt_u64("b_slots", slots as u64).max(1) as usize;
+        rep.set("calibration", json!({"plan_ms": calibration_ms, "reference_ms": CALIBRATION_REFERENCE_MS, "pace": pace_now, "cells_side_by_side": slots, "threads": ctx.threads}));
+        rep.obs_max("b.pace_x100", (pace_now * 100.0) as u64);
         let per_cell = ctx.opt_u64("b_per_cell", ctx.tier.pick(32, 48));
         let cells = ctx.opt_u64("b_cells", ctx.tier.pick(96, 96 * 20));
         let only = ctx.opt("b_family").map(|s| s.to_owned());
@@ -6182,6 +6608,7 @@ mod live {
             "b.front.trailer_block_below_limits_accepted",
             "b.back.answers_written_across_sozu_rst_stream",
             "b.back.bystander_streams_answered_after_a_crossing",
+            "b.premise.held",
         ] {
             rep.require(k);
         }
@@ -6191,7 +6618,13 @@ mod live {
             confirm_suspects(rep);
             return;
         }
-        par_cases_named(ctx, rep, cells, "c15-live", |i, r| run_cell(ctx, ctx.seed, i, per_cell, only.as_deref(), r));
+        par_cases_named(ctx, rep, cells, "c15-live", |i, r| {
+            let Some(_slot) = Slot::take(ctx) else {
+                r.obs("cases_not_started_budget_exhausted", 1);
+                return;
+            };
+            run_cell(ctx, ctx.seed, i, per_cell, only.as_deref(), r)
+        });
         confirm_suspects(rep);
     }
 }
